@@ -287,3 +287,200 @@ pub fn run_probe(seed: u64, cases: usize, out: &mut Sink) {
         }
     }
 }
+
+/// `Store::load_page` (the lookup `Nomt::open` performs for the root page: `PageLoader::probe`, `try_complete`
+/// and the caller's retry) on REAL hash tables: tiny tables (64..300 buckets) filled by real commits of clustered
+/// keys (every cluster of >= 20 leaves stores pages), churned so that tombstones and colliding 7-bit tags lie
+/// on the probe paths.  After every commit the `ht` file is read back: for the label of every full bucket the
+/// real lookup must return exactly that bucket and that page; pages that are not stored must not be found.
+/// Every lookup is one `pslookup` line for the Lean probing model.
+pub fn run_lookup(seed: u64, cases: usize, out: &mut Sink) {
+    use nomt::{hasher::Blake3Hasher, KeyReadWrite, Nomt, SessionParams};
+    let mut rng = Rng::new(seed ^ 0x100C);
+    let pid = std::process::id();
+    for case in 0..cases {
+        let mut r = rng.fork();
+        let n = *r.pick(&[64u32, 90, 128, 200, 256, 300]);
+        let mut cfg = crate::db::DbCfg::gen(&mut r);
+        cfg.buckets = n;
+        cfg.rollback = false;
+        cfg.workers = *r.pick(&[1usize, 2, 4]);
+        let dir = format!("/dev/shm/nomt-verif-lk-{pid}-{seed}-{case}");
+        let _ = std::fs::remove_dir_all(&dir);
+        out.mark_case(format!("case {case} lookup buckets={n} cfg: {}", cfg.describe()));
+        let db: Nomt<Blake3Hasher> = match Nomt::open(cfg.options(&dir)) {
+            Ok(db) => db,
+            Err(e) => {
+                out.fail(format!("C10 cannot create the store: {e:#}"));
+                continue;
+            }
+        };
+        // clusters: 2-byte prefixes; each commit adds / removes whole groups of keys under some of them
+        // 2..3 pages per cluster: aim at a load of 35..65 % (plus tombstones), so that probe paths are long
+        let nclusters = r.range(n as usize / 7, n as usize / 4);
+        let prefixes: Vec<[u8; 2]> = (0..nclusters).map(|_| [r.below(256) as u8, r.below(256) as u8]).collect();
+        let mut present: std::collections::BTreeMap<Key, ()> = Default::default();
+        let budget = (n as usize * 7) / 10; // stay below ~70 % load: a commit that exhausts the buckets fails
+        for round in 0..r.range(3, 7) {
+            let mut writes: std::collections::BTreeMap<Key, Option<Vec<u8>>> = Default::default();
+            for p in &prefixes {
+                match r.below(4) {
+                    0 => {
+                        // remove the cluster
+                        for k in present.keys().filter(|k| k[0] == p[0] && k[1] == p[1]) {
+                            writes.insert(*k, None);
+                        }
+                    }
+                    1 => {}
+                    _ => {
+                        for _ in 0..r.range(20, 45) {
+                            let mut k = r.bytes32();
+                            k[0] = p[0];
+                            k[1] = p[1];
+                            if r.chance(1, 2) {
+                                k[2] = 0x80 | (k[2] & 1); // a denser sub-cluster one page level further down
+                            }
+                            writes.insert(k, Some(vec![1u8; 8]));
+                        }
+                    }
+                }
+            }
+            let sess = db.begin_session(SessionParams::default());
+            let actuals: Vec<(Key, KeyReadWrite)> = writes.iter().map(|(k, v)| (*k, KeyReadWrite::Write(v.clone()))).collect();
+            let fin = match sess.finish(actuals) {
+                Ok(f) => f,
+                Err(e) => {
+                    out.fail(format!("C10 finish failed: {e:#}"));
+                    break;
+                }
+            };
+            if let Err(e) = fin.commit(&db) {
+                // bucket exhaustion is a legitimate refusal on tables this small
+                out.count("lookup_commit_refused");
+                let _ = e;
+                break;
+            }
+            for (k, v) in &writes {
+                if v.is_some() {
+                    present.insert(*k, ());
+                } else {
+                    present.remove(k);
+                }
+            }
+            // ---- read the table back
+            let ht = match std::fs::read(format!("{dir}/ht")) {
+                Ok(b) => b,
+                Err(_) => break,
+            };
+            let nb = n as usize;
+            let meta_pages = (nb + 4095) / 4096;
+            if ht.len() < (meta_pages + nb) * 4096 {
+                out.fail(format!("C16 ht file shorter than its layout ({} bytes, {nb} buckets)", ht.len()));
+                break;
+            }
+            let meta: Vec<u8> = ht[..nb].to_vec();
+            let label = |b: usize| -> [u8; 32] {
+                let o = (meta_pages + b) * 4096 + 4096 - 32;
+                let mut l = [0u8; 32];
+                l.copy_from_slice(&ht[o..o + 32]);
+                l
+            };
+            let full: Vec<usize> = (0..nb).filter(|&b| meta[b] & 0x80 != 0).collect();
+            out.add("lookup_full_buckets", full.len() as u64);
+            out.add("lookup_tombstones", meta.iter().filter(|&&m| m == 0x7f).count() as u64);
+            if full.len() > budget {
+                out.count("lookup_load_above_70pct");
+            }
+            let mut queries: Vec<([u8; 32], bool)> = full.iter().map(|&b| (label(b), true)).collect();
+            // absent pages: children of stored pages and random ids
+            for _ in 0..6 {
+                queries.push((gen_page_id(&mut r).encode(), false));
+            }
+            for (raw, _) in queries {
+                let hash = hash_raw_page_id(raw, &cfg.seed);
+                let mine: Vec<u32> = full.iter().filter(|&&b| label(b) == raw).map(|&b| b as u32).collect();
+                let op = format!("pslookup {hash} {} {}", hex(&meta), list_str(&mine));
+                let Some(page_id) = label_page_id(&raw) else {
+                    out.fail(format!("C16 bucket label {} is not the encoding of a page id", hex(&raw)));
+                    continue;
+                };
+                if page_id.encode() != raw {
+                    out.fail(format!("C16 bucket label {} does not re-encode to itself", hex(&raw)));
+                    continue;
+                }
+                let got = db.verif_load_page(page_id.clone());
+                match got {
+                    Err(e) => {
+                        out.line(op, "error".into());
+                        out.fail(format!("C10 load_page failed: {e:#}"));
+                    }
+                    Ok(None) => {
+                        if std::env::var("VH_DEBUG_LOOKUP").is_ok() && !mine.is_empty() {
+                            let pid = label_page_id(&raw).unwrap();
+                            eprintln!("DEBUG raw={} reenc={} depth={} probe={:?}", hex(&raw), hex(&pid.encode()), pid.depth(), probe_results(&meta, &pid, &cfg.seed, 6));
+                        }
+                        out.line(op, "none".into());
+                        if !mine.is_empty() {
+                            out.fail(format!("C10 a stored merkle page (bucket {}, {n} buckets, round {round}) is not found by Store::load_page: reopening would lose it", mine[0]));
+                        }
+                    }
+                    Ok(Some((page, b))) => {
+                        out.line(op.clone(), format!("some {b}"));
+                        if !mine.contains(&(b as u32)) {
+                            out.fail(format!("C10 Store::load_page returned bucket {b} which does not hold the page"));
+                        } else {
+                            let o = (meta_pages + b as usize) * 4096;
+                            if page[..] != ht[o..o + 4096] {
+                                out.fail(format!("C10 Store::load_page returned other bytes than bucket {b} holds on disk"));
+                            }
+                        }
+                        // the interesting cases: another page with OUR 7-bit tag lies on the probe path before the hit
+                        // (the first possible hit is not the page: the caller has to retry)
+                        let first_hit = probe_results(&meta, &page_id, &cfg.seed, 2 * nb + 4).into_iter().find(|(k, _)| *k == 'H').map(|(_, b)| b);
+                        if first_hit != Some(b) {
+                            out.count("lookup_retry_needed");
+                        }
+                        out.nontrivial(&op);
+                    }
+                }
+                out.count("lookups");
+            }
+            if mine_dups(&full, &label) {
+                out.fail(format!("C19 one page is stored in two buckets ({n} buckets, round {round})"));
+            }
+        }
+        drop(db);
+        let _ = std::fs::remove_dir_all(&dir);
+    }
+}
+
+/// The page id a bucket label (`PageId::encode`: for every level `word += child + 1; word <<= 6`) stands for.
+/// (`PageId::decode` of nomt-core is NOT the inverse of `encode` — it expects the sum without the trailing shift —
+/// and is used by nothing but its own unit tests; see DESIGN.md.)
+fn label_page_id(raw: &[u8; 32]) -> Option<PageId> {
+    if raw[..16].iter().any(|&b| b != 0) {
+        return None; // deeper than the tables of this run ever get
+    }
+    let mut v = u128::from_be_bytes(raw[16..].try_into().unwrap());
+    if v & 63 != 0 {
+        return None;
+    }
+    v >>= 6;
+    let mut path = Vec::new();
+    while v > 0 {
+        v -= 1;
+        path.push((v & 63) as u8);
+        v >>= 6;
+    }
+    path.reverse();
+    let mut p = ROOT_PAGE_ID;
+    for c in path {
+        p = p.child_page_id(ChildPageIndex::new(c)?).ok()?;
+    }
+    Some(p)
+}
+
+fn mine_dups(full: &[usize], label: &dyn Fn(usize) -> [u8; 32]) -> bool {
+    let mut seen = std::collections::BTreeSet::new();
+    full.iter().any(|&b| !seen.insert(label(b)))
+}
